@@ -129,7 +129,6 @@ Section P.
       destruct (sp_load f m) as [d'|] eqn:Ed; [|discriminate].
       pose proof (sp_load_valid frepr loads_b f m d' Ed) as Hid.
       destruct d'; simpl in Ev; inversion Ev; subst; auto.
-      right. split; [symmetry; exact Hid|]. split; auto.
   Qed.
 
   Theorem open_by_id_never_wrong_partial : forall f s i s' sp,
@@ -141,5 +140,154 @@ Section P.
     - exists m. auto.
     - exfalso. eapply Hn; eauto.
   Qed.
+
+
+  (* ================================================================ C. repair() touches state point files and
+     directory names only *)
+  (* a data path inside a job directory: anything but the state point file and the backend's temp name *)
+  Definition data_rel (rel : path) : Prop :=
+    rel <> [] /\ last rel [] <> SPF /\ last rel [] <> TMPPFX ++ SPF.
+
+  (* [f'] holds the same documents and data files as [f], byte for byte, possibly under another job
+     directory name; nothing outside the workspace changed *)
+  Definition frame (f f' : fs) : Prop :=
+    ws_only f f' /\
+    (forall i rel c, data_rel rel -> get f ([WS; i] ++ rel) = Some (File c) ->
+       exists i', get f' ([WS; i'] ++ rel) = Some (File c)) /\
+    (forall i' rel c, data_rel rel -> get f' ([WS; i'] ++ rel) = Some (File c) ->
+       exists i, get f ([WS; i] ++ rel) = Some (File c)).
+
+  Lemma frame_refl : forall f, frame f f.
+  Proof. intro f. split; [apply ws_only_refl|]. split; eauto. Qed.
+
+  Lemma frame_trans : forall a b c, frame a b -> frame b c -> frame a c.
+  Proof.
+    intros a b c [W1 [F1 G1]] [W2 [F2 G2]]. split; [eapply ws_only_trans; eauto|]. split.
+    - intros i rel x Hd H. destruct (F1 _ _ _ Hd H) as [i1 H1]. eauto.
+    - intros i rel x Hd H. destruct (G2 _ _ _ Hd H) as [i1 H1]. eauto.
+  Qed.
+
+  Lemma strip_jdir : forall b i rel, strip (jdir b) ([WS; i] ++ rel) = if str_eqb b i then Some rel else None.
+  Proof. intros. simpl. reflexivity. Qed.
+
+  Lemma data_path_neq_jdir : forall i j rel, rel <> [] -> [WS; i] ++ rel <> jdir j.
+  Proof. intros i j rel H E. destruct rel; [contradiction|]. discriminate. Qed.
+
+  Lemma frame_rename : forall f a b f', rename f (jdir a) (jdir b) = FOk f' -> frame f f'.
+  Proof.
+    intros f a b f' H.
+    assert (W : ws_only f f') by (eapply rename_ws_only; eauto; reflexivity).
+    destruct (path_eqb (jdir a) (jdir b)) eqn:Eab.
+    { assert (f' = f).
+      { unfold rename in H. destruct (get f (jdir a)); [|discriminate].
+        destruct (get f (parent (jdir b))) as [[c|]|]; try discriminate. rewrite Eab in H. inversion H; reflexivity. }
+      subst. apply frame_refl. }
+    apply path_eqb_neq in Eab.
+    destruct (get f (jdir a)) as [[c0|]|] eqn:Ea.
+    - (* a regular file bearing an id-like name *)
+      pose proof (fun q => get_rename_file f (jdir a) (jdir b) c0 f' q Ea Eab H) as G.
+      assert (U : forall i rel, rel <> [] -> get f' ([WS; i] ++ rel) = get f ([WS; i] ++ rel)).
+      { intros i rel Hr. rewrite G.
+        assert (E1 : path_eqb ([WS; i] ++ rel) (jdir b) = false) by (apply path_eqb_neq, data_path_neq_jdir; auto).
+        assert (E2 : path_eqb ([WS; i] ++ rel) (jdir a) = false) by (apply path_eqb_neq, data_path_neq_jdir; auto).
+        rewrite E1, E2. reflexivity. }
+      split; [exact W|]. split; intros i rel c [Hr _] Hg; exists i; [rewrite U|rewrite <- U]; auto.
+    - (* a directory *)
+      pose proof (fun q => get_rename_dir f (jdir a) (jdir b) f' q Ea Eab H) as G.
+      destruct (rename_dir_ok_dest f (jdir a) (jdir b) f' Ea Eab H) as [_ Hch].
+      assert (Hab : a <> b) by (intro E; subst; apply Eab; reflexivity).
+      assert (U : forall i rel, rel <> [] ->
+                get f' ([WS; i] ++ rel) = if str_eqb b i then get f ([WS; a] ++ rel)
+                                          else if str_eqb a i then None else get f ([WS; i] ++ rel)).
+      { intros i rel Hr. rewrite G, strip_jdir. destruct (str_eqb b i); [reflexivity|].
+        unfold under. rewrite strip_jdir. destruct (str_eqb a i); reflexivity. }
+      assert (Hempty : forall rel, rel <> [] -> get f ([WS; b] ++ rel) = None).
+      { intros rel Hr. destruct rel as [|n r]; [contradiction|].
+        change ([WS; b] ++ n :: r) with (jdir b ++ n :: r). rewrite get_app_cons.
+        apply has_children_false. exact Hch. }
+      split; [exact W|]. split.
+      + intros i rel c [Hr _] Hg. destruct (str_eqb a i) eqn:Eai.
+        * apply str_eqb_eq in Eai. subst i. exists b. rewrite U by auto. rewrite str_eqb_refl. exact Hg.
+        * destruct (str_eqb b i) eqn:Ebi.
+          -- apply str_eqb_eq in Ebi. subst i. rewrite Hempty in Hg by auto. discriminate.
+          -- exists i. rewrite U by auto. rewrite Ebi, Eai. exact Hg.
+      + intros i rel c [Hr _] Hg. rewrite U in Hg by auto. destruct (str_eqb b i).
+        * exists a. exact Hg.
+        * destruct (str_eqb a i); [discriminate|]. exists i. exact Hg.
+    - unfold rename in H. rewrite Ea in H. discriminate.
+  Qed.
+
+  Lemma frame_makedirs : forall f i f', makedirs f (jdir i) = FOk f' -> frame f f'.
+  Proof.
+    intros f i f' H. split; [eapply makedirs_ws_only; eauto|]. split.
+    - intros j rel c _ Hg. exists j. eapply makedirs_keeps; eauto.
+    - intros j rel c _ Hg. exists j. destruct (get f ([WS; j] ++ rel)) as [x|] eqn:E.
+      + rewrite (makedirs_keeps _ _ _ _ _ H E) in Hg. exact Hg.
+      + unfold makedirs in H. destruct (makedirs_from_new _ _ _ _ _ _ H E) as [G|G]; rewrite G in Hg; discriminate.
+  Qed.
+
+  Lemma frame_json_write : forall f i v f', json_write frepr f (spf i) v = FOk f' -> frame f f'.
+  Proof.
+    intros f i v f' H. split; [eapply json_write_ws_only; eauto|].
+    assert (U : forall j rel, data_rel rel -> get f' ([WS; j] ++ rel) = get f ([WS; j] ++ rel)).
+    { intros j rel [Hr [H1 H2]]. rewrite (json_write_spf frepr f i v f' H).
+      assert (E1 : path_eqb ([WS; j] ++ rel) (spf i) = false).
+      { apply path_eqb_neq. intro E. unfold spf in E. simpl in E. inversion E; subst. apply H1. reflexivity. }
+      assert (E2 : path_eqb ([WS; j] ++ rel) (tmpf i) = false).
+      { apply path_eqb_neq. intro E. unfold tmpf in E. simpl in E. inversion E; subst. apply H2. reflexivity. }
+      rewrite E1, E2. reflexivity. }
+    split; intros j rel c Hd Hg; exists j; [rewrite U|rewrite <- U]; auto.
+  Qed.
+
+  Lemma frame_jinit : forall force f s sp f' s' r, jinit force f s sp = (f', s', r) -> frame f f'.
+  Proof.
+    intros force f s sp f' s' r H. unfold Cache.jinit in H.
+    destruct (is_objb sp); simpl in H.
+    - destruct (sp_load_view f (Cache.cid frepr sp)); [inversion H; subst; apply frame_refl|].
+      destruct (makedirs f (jdir (Cache.cid frepr sp))) as [f1|] eqn:Em; [|inversion H; subst; apply frame_refl].
+      pose proof (frame_makedirs _ _ _ Em) as W1.
+      destruct (force || negb (isfile f1 (spf (Cache.cid frepr sp)))).
+      + destruct (json_write frepr f1 (spf (Cache.cid frepr sp)) sp) as [f2|] eqn:Ew; [|inversion H; subst; auto].
+        pose proof (frame_json_write _ _ _ _ Ew) as W2.
+        destruct (sp_load_view f2 (Cache.cid frepr sp)) as [[d v]|]; inversion H; subst; eapply frame_trans; eauto.
+      + destruct (sp_load_view f1 (Cache.cid frepr sp)) as [[d v]|]; inversion H; subst; auto.
+    - destruct (makedirs f (jdir (Cache.cid frepr sp))) eqn:Em; inversion H; subst; [|apply frame_refl].
+      eapply frame_makedirs; eauto.
+  Qed.
+
+  Lemma frame_loop : forall ids f s corrupted f' s' r,
+    repair_loop f s ids corrupted = (f', s', r) -> frame f f'.
+  Proof.
+    induction ids as [|i rest IH]; intros f s corrupted f' s' r H; simpl in H.
+    - inversion H; subst. apply frame_refl.
+    - destruct (get_statepoint f s false i) as [s1 [sp|e]] eqn:Eg.
+      + set (ci := Cache.cid frepr sp) in *.
+        destruct (if str_eqb ci i then Some f
+                  else match rename f (jdir i) (jdir ci) with FOk f1 => Some f1 | FErr _ => None end) as [f1|] eqn:Em.
+        * assert (W1 : frame f f1).
+          { destruct (str_eqb ci i); [inversion Em; subst; apply frame_refl|].
+            destruct (rename f (jdir i) (jdir ci)) as [g|] eqn:Er; inversion Em; subst. eapply frame_rename; eauto. }
+          assert (TAIL : forall f' s' r,
+                    match jinit false f1 s1 sp with
+                    | (f2, s2, Ok _) => repair_loop f2 s2 rest corrupted
+                    | (f2, s2, Err _) =>
+                        match jinit true f2 s2 sp with
+                        | (f3, s3, Ok _) => repair_loop f3 s3 rest corrupted
+                        | (f3, s3, Err _) => repair_loop f3 s3 rest (corrupted ++ [i])
+                        end
+                    end = (f', s', r) -> frame f f').
+          { intros g' t' r' E.
+            destruct (jinit false f1 s1 sp) as [[f2 s2] [u|e]] eqn:E1.
+            - eapply frame_trans; [exact W1|]. eapply frame_trans; [eapply frame_jinit; eauto|]. eapply IH; eauto.
+            - destruct (jinit true f2 s2 sp) as [[f3 s3] [u|e']] eqn:E2;
+                (eapply frame_trans; [exact W1|]; eapply frame_trans; [eapply frame_jinit; eauto|];
+                 eapply frame_trans; [eapply frame_jinit; eauto|]; eapply IH; eauto). }
+          destruct sp; try (eapply TAIL; exact H). inversion H; subst. exact W1.
+        * eapply IH; eauto.
+      + destruct e; try (inversion H; subst; apply frame_refl). eapply IH; eauto.
+  Qed.
+
+  Theorem repair_frame : forall f s ids f' s' r, repair_in f s ids = (f', s', r) -> frame f f'.
+  Proof. intros f s ids f' s' r H. unfold Repair.repair_in in H. eapply frame_loop; eauto. Qed.
 
 End P.
